@@ -812,7 +812,14 @@ def direction_whole(rep, lib):
     if not eqs:
         r.bad("from_str#compare", "no comparison with the constants ASC / DESC found (unrecognised idiom)", b.where())
         return
+    ok_blocks = {bb for bb, idx, place, rv, _ in b.assignments()
+                 if rv["k"] == "agg" and rv.get("variant_name") == "Ok" and place["l"] in common.ret_locals(b)}
     for c, oi in eqs:
+        if c.target is not None and not (set(b.reachable(c.target)) & ok_blocks):
+            # a comparison made after the option has already been rejected (it only words the error message)
+            r.ok("from_str#%s@bb%d" % (c.args[1 - oi].get("s") if len(c.args) == 2 else "cmp", c.bb),
+                 "no accepting return is reachable from this comparison", c.where(), nontrivial=False)
+            continue
         at = pr.call_arg_origins(c, oi)
         calls = sorted({b.call_at[a[1]].name or "?" for a in at if a[0] == "call"})
         other = sorted({str(a) for a in at if a[0] in ("arg",)})
